@@ -83,12 +83,54 @@ static void do_wake()
     printf("\nend\n");
 }
 
-// csr: <setup> <cutoff_frequency>; one fresh object, updateCSR(cutoff) once
+// wakeseq: <setup> <nmore>  nmore x ( W|C|P profiles(nb*n) ): ONE object, wakePotential() for the set-up's profiles and then
+// once more for every further set of profiles; after EVERY call the same lines as `wake` are printed (line k of a
+// tag belongs to call k).  C06's statement holds for every call on an object, not only for the first one.
+static void print_wake_call(Setup& S)
+{
+    const meshaxis_t* w = S.f->wakePotential();
+    printf("padded");
+    for (unsigned i = 0; i < S.N; i++) pf(S.f->getPaddedBunchProfiles()[i]);
+    printf("\nwakepad");
+    for (unsigned i = 0; i < S.N; i++) pf(S.f->getPaddedWakePotential()[i]);
+    printf("\nwake");
+    for (size_t i = 0; i < (size_t)S.nb * S.n; i++) pf(w[i]);
+    printf("\nwake2");
+    for (unsigned b = 0; b < S.nb; b++) for (unsigned x = 0; x < S.n; x++) pf(S.f->getWakePotentials()[b][x]);
+    printf("\ntop"); pf(S.f->_wakelosses[S.N / 2].real()); pf(S.f->_wakelosses[S.N / 2].imag());
+    printf("\n");
+}
+
+static void do_wakeseq()
+{
+    std::vector<float> prof;
+    Setup S = read_setup(prof);
+    long nmore = nextl();
+    print_inputs(S);
+    print_wake_call(S);
+    for (long k = 0; k < nmore; k++) {
+        char between = next()[0];       // W: nothing; C: updateCSR(0) with the new profiles first; P: padBunchProfiles() first
+        std::vector<float> q((size_t)S.nb * S.n);
+        for (auto& v : q) v = nextf();
+        set_profiles(S, q);
+        if (between == 'C') S.f->updateCSR(0);
+        else if (between == 'P') S.f->padBunchProfiles();
+        print_wake_call(S);
+    }
+    printf("end\n");
+}
+
+// csr: <setup> <cutoff_frequency> <nwarm> nwarm x profiles; one fresh object, updateCSR(cutoff) once
 static void do_csr()
 {
     std::vector<float> prof;
     Setup S = read_setup(prof);
     float cutoff = nextf();
+    // <nwarm> nwarm x profile(n): earlier wakePotential() calls with OTHER profiles on the object that later gives the
+    // wake for the Parseval oracle (a wake that is only right on a fresh object is not the wake the beam sees)
+    long nwarm = nextl();
+    std::vector<std::vector<float>> warm(nwarm, std::vector<float>((size_t)S.nb * S.n));
+    for (auto& q : warm) for (auto& v : q) v = nextf();
     print_inputs(S);
     S.f->updateCSR(cutoff);
     printf("renorm"); pf(S.f->_formfactorrenorm); printf("\n");
@@ -105,11 +147,18 @@ static void do_csr()
     S.f.reset();
     S.f = std::make_shared<ElectricField>(S.ps, S.z, S.buckets, S.s, nullptr, S.frev,
                                           (meshaxis_t)S.revpart, S.Ib, S.E0, S.sd, S.dt);
-    S.f->wakePotential();
+    for (auto& q : warm) { set_profiles(S, q); S.f->wakePotential(); }
+    set_profiles(S, prof2);
+    const meshaxis_t* w = S.f->wakePotential();
     printf("\nwakepad");
     for (unsigned i = 0; i < S.N; i++) pf(S.f->getPaddedWakePotential()[i]);
     printf("\npadded");
     for (unsigned i = 0; i < S.N; i++) pf(S.f->getPaddedBunchProfiles()[i]);
+    // what wakePotential() RETURNS for the bunch (read back at bucket*spacing, times getWakeScaling()): the
+    // "wake potential over the bunch" of the property text
+    printf("\nwake");
+    for (size_t i = 0; i < (size_t)S.nb * S.n; i++) pf(w[i]);
+    printf("\nwscale"); pf(S.f->getWakeScaling());
     printf("\nend\n");
 }
 
@@ -155,6 +204,7 @@ static void do_csrmb()
     PhaseSpace::resetSize(S.n, 1);
     std::vector<integral_t> filling(1, 1.0f);
     std::vector<uint32_t> b0(1, 0);
+    std::vector<uint32_t> bks = S.buckets;
     for (unsigned b = 0; b < nb; b++) {
         auto ps = std::make_shared<PhaseSpace>(S.qmin, S.qmax, S.qscale, S.pmin, S.pmax, S.pscale,
                                                nullptr, 1.0, 1.0, filling, 1.0);
@@ -167,13 +217,19 @@ static void do_csrmb()
         printf("single_spectrum%u", b);
         for (unsigned i = 0; i < S.N; i++) pf(f->getCSRSpectrum()[i]);
         printf("\nsingle_power%u", b); pf(f->getCSRPower()[0]);
-        auto g = std::make_shared<ElectricField>(ps, S.z, b0, S.n, nullptr, S.frev,
+        // the wake of the bunch alone IN ITS OWN BUCKET (same bucket number and spacing as in the train): the
+        // wake loss of the property is taken over what wakePotential() returns for the bunch
+        std::vector<uint32_t> bb(1, bks[b]);
+        auto g = std::make_shared<ElectricField>(ps, S.z, bb, S.s, nullptr, S.frev,
                                                  (meshaxis_t)S.revpart, S.Ib, S.E0, S.sd, S.dt);
-        g->wakePotential();
+        const meshaxis_t* w = g->wakePotential();
         printf("\nwakepad%u", b);
         for (unsigned i = 0; i < S.N; i++) pf(g->getPaddedWakePotential()[i]);
         printf("\npadded%u", b);
         for (unsigned i = 0; i < S.N; i++) pf(g->getPaddedBunchProfiles()[i]);
+        printf("\nwake%u", b);
+        for (unsigned x = 0; x < S.n; x++) pf(w[x]);
+        printf("\nwscale%u", b); pf(g->getWakeScaling());
         printf("\n");
     }
     printf("end\n");
@@ -195,5 +251,5 @@ static void do_pow2()
 int main(int argc, char** argv)
 {
     Display::silent_mode = true;   // 'Created some wisdom' messages go to stdout otherwise
-    return run_main(argc, argv, {{"wake", do_wake}, {"csr", do_csr}, {"csrmb", do_csrmb}, {"pow2", do_pow2}});
+    return run_main(argc, argv, {{"wake", do_wake}, {"wakeseq", do_wakeseq}, {"csr", do_csr}, {"csrmb", do_csrmb}, {"pow2", do_pow2}});
 }
